@@ -190,7 +190,9 @@ impl Grammar {
     }
 }
 
-const ANY_ALPHABET: [char; 16] = ['a', 'b', 'Z', '0', '7', ' ', '_', '-', '.', ',', 'é', '✓', '😀', 'ß', ':', '#'];
+const ANY_ALPHABET: [char; 28] = ['a', 'b', 'Z', '0', '7', ' ', '_', '-', '.', ',', 'é', '✓', '😀', 'ß', ':', '#',
+    // characters other notations give a meaning to (escapes, quotes, comment and block delimiters, control characters)
+    '\\', '\'', '\t', '/', '*', '{', '}', '$', '%', '\n', '\u{0}', '\\'];
 
 // ---------------------------------------------------------------- tokens and mutations
 
@@ -909,6 +911,11 @@ fn observe_literal(input: &str) -> Value {
 pub fn run(opts: &Opts, out: &mut Emitter) {
     let mut r = Rng::new(opts.seed ^ 0x1219);
     // literal builders against the model
+    // strings around the backslash (the grammar gives it no meaning: a string ends at the first quote)
+    for text in ["\"\\\"", "\"C:\\\"", "\"a\\\\\\\"", "\"\\n\"", "\"\\ \"", "\"\\\\\"", "\"\\t\\\"", "\"x\\\"", "\"\\u{41}\"", "\"%s\\0\""] {
+        let input = format!("tx t() {{\n  signers {{\n    {text},\n  }}\n}}\n");
+        out.case("literal", || json!({"probe": "literal", "kind": "string", "text": text, "input": input, "obs": observe_literal(&input)}));
+    }
     for _ in 0..(opts.n / 4).max(40) {
         let (kind, text) = literal_text(&mut r);
         let lead = r.pick(&["", "// é✓\n", "/* 😀 */ "]).to_string();
